@@ -2,6 +2,7 @@
 
 import asyncio
 from collections.abc import Callable, Coroutine
+import contextlib
 from dataclasses import dataclass, field
 import json
 import logging
@@ -82,7 +83,10 @@ class Persistence:
         async def cancel_save() -> None:
             """Cancel the save task."""
             task.cancel()
-            await task
+            # The task ends by cancellation if it hasn't started yet
+            # or if it's cancelled while saving.
+            with contextlib.suppress(asyncio.CancelledError):
+                await task
 
         self._cancel_save = cancel_save
 
